@@ -3,7 +3,9 @@ module verif
 go 1.23
 
 require (
+	github.com/hslam/netpoll v0.0.4-0.20230514092318-c286d2b379aa
 	github.com/hslam/rpc v0.0.0
+	github.com/hslam/socket v0.0.4-0.20230517140040-6048f4a0c39b
 	pgregory.net/rapid v1.3.0
 )
 
@@ -15,11 +17,9 @@ require (
 	github.com/hslam/inproc v0.0.0-20210912032833-46957e53529f // indirect
 	github.com/hslam/log v1.0.6 // indirect
 	github.com/hslam/mmap v1.0.0 // indirect
-	github.com/hslam/netpoll v0.0.4-0.20230514092318-c286d2b379aa // indirect
 	github.com/hslam/reuse v0.0.0-20230219162114-9a3f8d1f9550 // indirect
 	github.com/hslam/scheduler v0.0.0-20211028175315-641598104976 // indirect
 	github.com/hslam/sendfile v1.0.1 // indirect
-	github.com/hslam/socket v0.0.4-0.20230517140040-6048f4a0c39b // indirect
 	github.com/hslam/splice v1.0.3 // indirect
 	github.com/hslam/websocket v0.1.1-0.20230517135840-2d09ff61bbdb // indirect
 	github.com/hslam/writer v1.0.1-0.20230517134517-171bf4321917 // indirect
